@@ -366,6 +366,7 @@ func runC18Rec(c c18RecCase, tr *vw.Trace) *vw.Violation {
 	}
 	c18Classes(c.Cluster, tr)
 	c0, r0 := calls, reloads
+	var unrelated []*corev1.Secret
 	for i, p := range c.Perms {
 		applyWorldPerm(w, base, p)
 		switch c.Touch[i] {
@@ -378,8 +379,25 @@ func runC18Rec(c c18RecCase, tr *vw.Trace) *vw.Violation {
 				tr.Class("unrelated-node-status-change")
 			}
 		case 2:
-			w.Secrets = append(w.Secrets, &corev1.Secret{ObjectMeta: metav1.ObjectMeta{Name: fmt.Sprintf("unrelated%d", i), Namespace: vw.MetalNS}})
+			unrelated = append(unrelated, &corev1.Secret{ObjectMeta: metav1.ObjectMeta{Name: fmt.Sprintf("unrelated%d", i), Namespace: vw.MetalNS}})
 			tr.Class("unrelated-secret")
+		}
+		// the secrets (referenced ones, same-named ones of other namespaces, unrelated ones) are listed in another order each time
+		w.Secrets = nil
+		for j := range base.Secrets {
+			k := j
+			if i%2 == 0 {
+				k = len(base.Secrets) - 1 - j
+			}
+			w.Secrets = append(w.Secrets, base.Secrets[k])
+		}
+		if i%3 == 0 {
+			w.Secrets = append(append([]*corev1.Secret(nil), unrelated...), w.Secrets...)
+		} else {
+			w.Secrets = append(w.Secrets, unrelated...)
+		}
+		if len(base.Secrets) > 0 {
+			tr.Class("peer-password-in-a-secret-with-a-same-named-secret-elsewhere")
 		}
 		if p.nonTrivial() || c.Touch[i] != 0 {
 			tr.NonTrivial()
